@@ -30,6 +30,8 @@ def build_inputs(entry, rep, cond):
             return big[1:1 + 2 * a.shape[0]:2, 1:1 + 2 * a.shape[1]:2]
         if rep == 'quantity' and a.dtype != bool:
             return a * u.Jy
+        if rep == 'f4' and a.dtype != bool:
+            return a.astype(np.float32)
         return a
     if rep == 'masked':
         store['data'] = np.ma.MaskedArray(d, mask=(mask.copy() if cond in ('masked', 'nonfinite') else np.zeros_like(mask)))
